@@ -87,6 +87,17 @@ M = [
      "        for i in range(0,len(in_r_l_t)):", "        for i in range(1 if len(in_r_l_t) > 2 else 0,len(in_r_l_t)):", ["C14"]),
     ("unconstrained_range_short", "src/vsc/model/randomizer.py",
      "                    self.randstate.randint(range_l[0][0], range_l[0][1]))", "                    self.randstate.randint(range_l[0][0], max(range_l[0][0], range_l[0][1]-1)))", ["C14"]),
+    ("dist_cumwalk_lt", "src/vsc/model/constraint_dist_scope_model.py",
+     "            if seed_v <= 0:", "            if seed_v < 0:", ["C15"]),
+    ("dist_zero_weight_not_excluded", "src/vsc/visitors/dist_constraint_builder.py",
+     "                        ExprLiteralModel(0, False, 8)),\n                    [\n                        ExprUnaryModel(",
+     "                        ExprLiteralModel(99, False, 8)),\n                    [\n                        ExprUnaryModel(", ["C15"]),
+    ("dist_range_upper_excl", "src/vsc/model/solvegroup_swizzler_partsel.py",
+     "                val = self.randstate.randint(val_l, val_r)", "                val = self.randstate.randint(val_l, max(int(val_l), int(val_r)-1))", ["C15"]),
+    ("distselect_le_to_lt", "src/vsc/methods.py",
+     "        if rand_v <= 0:", "        if rand_v < 0:", ["C15"]),
+    ("distselect_from_zero", "src/vsc/methods.py",
+     "    rand_v = random.randint(1, total_w)", "    rand_v = random.randint(0, total_w)", ["C15"]),
     ("unsat_returns", "src/vsc/model/randomizer.py",
      "            if btor.Sat() != btor.SAT:\n                # If the system doesn't solve with hard constraints added,",
      "            if btor.Sat() != btor.SAT and len(constraint_l) > 3:\n                # If the system doesn't solve with hard constraints added,",
